@@ -4,7 +4,8 @@ none may print VIOLATION. Writes /tmp/benign/result.json."""
 import json, os, subprocess, sys, glob, shutil
 checks = [c["property_id"] for c in json.load(open("/verif/MANIFEST.json"))["checks"]]
 out = {}
-for d in sorted(glob.glob("/tmp/benign/*.diff")):
+ROOT = os.environ.get("BENROOT", "/tmp/benign")
+for d in sorted(glob.glob(ROOT + "/*.diff")):
     name = os.path.basename(d)[:-5]
     if len(sys.argv) > 1 and not any(name.startswith(a) for a in sys.argv[1:]):
         continue
@@ -13,7 +14,7 @@ for d in sorted(glob.glob("/tmp/benign/*.diff")):
     shutil.rmtree(wt, ignore_errors=True)
     subprocess.run("git -C /repo worktree add -q --detach %s HEAD" % wt, shell=True, check=True)
     subprocess.run("git apply %s" % d, shell=True, cwd=wt, check=True)
-    env = dict(os.environ, HASHSTORE_SRC=wt + "/src", VERIF_SCRATCH_OUT="/tmp/wtm/out_" + name, VERIF_NOCACHE="1")
+    env = dict(os.environ, HASHSTORE_SRC=wt + "/src", VERIF_SCRATCH_OUT="/tmp/wtm/out_" + name, VERIF_NOCACHE="0")   # cache lives in the per-change scratch out dir, keyed by tree
     p = subprocess.run("timeout 900 /venv/bin/python -m pytest -q -p no:cacheprovider -n 4 2>&1 | tail -1", shell=True, cwd=wt,
                        env=dict(os.environ, PYTHONPATH=wt + "/src"), capture_output=True, text=True)
     res = {"suite": p.stdout.strip()}
@@ -28,4 +29,4 @@ for d in sorted(glob.glob("/tmp/benign/*.diff")):
     shutil.rmtree(wt, ignore_errors=True); shutil.rmtree(env["VERIF_SCRATCH_OUT"], ignore_errors=True)
     bad = {k: v for k, v in res.items() if isinstance(v, dict) and (v["rc"] != 0)}
     print(name, res["suite"], "ALARMS:" if bad else "clean", json.dumps(bad)[:600], flush=True)
-    json.dump(out, open("/tmp/benign/result.json", "w"), indent=1)
+    json.dump(out, open(ROOT + "/result.json", "w"), indent=1)
